@@ -311,7 +311,7 @@ def nontrivial(c, o):
 def correspond(res, n):
     rng = random.Random(res.seed * 7919 + 13)
     corpus = json.load(open(core.VERIF + '/corpus/C13.json'))
-    lens = SMALL_LENS * 6 + EDGE_LENS[:4] if res.tier == 'quick' else SMALL_LENS * 3 + EDGE_LENS
+    lens = SMALL_LENS * 6 + [16384, 16385] if res.tier == 'quick' else SMALL_LENS * 3 + EDGE_LENS
     transports = ['mem'] * 5 + ['pipe'] * 3 + ['socket'] * 2
     if res.tier != 'quick':
         lens = lens + [65535, 65536, 65537, 70000]
@@ -414,7 +414,7 @@ def probes(res):
 
 def run(res):
     res.proof_step('Props/C13.v', extra_targets=['Model/Framing.vo'], kernels_needed=['K_framing'])
-    n = 350 if res.tier == 'quick' else 12000
+    n = 300 if res.tier == 'quick' else 10000
     if res.broken:
         n = max(n, 3000)      # failing-input search
     correspond(res, n)
@@ -440,6 +440,20 @@ def replay(path):
         bad = (not out.get('ok', True)) or (c['probe'] == 'huge' and not (out['code'] == 401 and out['writes'] == 0))
         print('monitor:', 'violated' if bad else 'holds')
         return 1 if bad else 0
+    import os
+    vf = os.path.join(core.COQ, 'Cases', 'C13r_view.v')
+    with open(vf, 'w') as fh:
+        fh.write(HEADER + '\nEval vm_compute in (model_view (%s)).\n' % to_coq(c, out))
+    rc, txt, _ = core.sh(['coqc', '-Q', '.', 'BV', '-w', '-notation-overridden', 'Cases/C13r_view.v'],
+                         cwd=core.COQ, timeout=600)
+    print('model expects (sender obs, wire (len,sum,wsum)+head, write sizes, receiver obs '
+          '(code, len, head, ret, buffer head, flags), unread, read sizes):')
+    print(txt.strip()[:3000])
+    for ext in ('.v', '.vo', '.vok', '.vos', '.glob'):
+        try:
+            os.remove(vf[:-2] + ext)
+        except OSError:
+            pass
     codes, _ = core.coq_eval('C13r', HEADER, [[to_coq(c, out)]])
     print('model agrees, property monitor holds' if not codes else
           {1: 'model differs in internal detail (code 1)', 2: 'model disagrees (code 2)',
